@@ -17,8 +17,9 @@ Stages (DESIGN section 5):
 """
 import collections, json, os, re
 from checklib import core
+from checklib.props import stm_common as sc
 
-BINS = ["cache"]
+BINS = ["cache", "e2e"]
 PID = "C10"
 EXTRA = ["Cache/Extract.vo"]
 F1_WHAT = ("a storage read whose database fetch straddles the commit of a selfdestruct / re-creation / "
@@ -29,6 +30,18 @@ F1_WHAT = ("a storage read whose database fetch straddles the commit of a selfde
 def setup():
     core.coq_build(EXTRA)
     core.ocaml_build("cache", "cache", "cache_drv")
+    sc.setup()
+
+
+def block_stage(ctx):
+    """Whole blocks on the real Scheduler + ParallelState with a slow database: a worker that reports a
+    database fetch is frozen for a random time (harness/src/driver.rs Straggler::slow_db), so account,
+    code and storage fetches of speculative readers straddle commits of the same account. A read that
+    changes what the committed cache serves shows up as a result different from in-order revm."""
+    agg, bins, _ = sc.run_sweeps(ctx, [
+        ("slowdb", 101, 1500 if ctx.quick else 25000, ["txs=3..6", "workers=2,3", "opts=shared,ben,destroy,create", "strat=slowdb"]),
+    ], want_trace=False)
+    return agg
 
 
 def split_main(line):
@@ -237,6 +250,11 @@ def run(ctx):
             d["model_diffs"].append(dict(case=-1, side="free-threaded soak of readers x committer", what=soak_line))
             corr_ok = False
     known_f1 = any(k.get("id") == "F1" for k in ctx.known_findings())
+    blk = block_stage(ctx) if not ctx.replay else dict(cases=0, oracle_mismatch=[], driver_failure=[])
+    if blk["oracle_mismatch"]:
+        c = blk["oracle_mismatch"][0]
+        ctx.violation("a speculative read overlapping a commit changed what the state serves afterwards (block result differs from in-order revm under a slow database)",
+                      dict(replay=sc.replay_cmd(c), case=c, detail=open(c["file"]).read()[:4000] if c.get("file") else "", seed=ctx.seed), True)
 
     if not proof["ok"] or not corr_ok or d["impl_diffs"]:
         broken = list(proof["problems"])
@@ -279,6 +297,8 @@ def run(ctx):
                   mismatches_vs_original=cs["n_bad_original"], mismatches_vs_repaired=cs["n_bad_repaired"],
                   runs_ending_incoherent=len(cs["incoherent"]),
                   runs_incoherent_outside_hypotheses=cs["incoherent_outside_hypotheses"]),
+        slow_database_blocks=dict(cases=blk["cases"], oracle_mismatches=len(blk["oracle_mismatch"]), driver_failures=len(blk["driver_failure"]),
+                                  rule="generated blocks (shared senders, probes, selfdestruct, create) run by the real Scheduler under the deterministic driver with the slow-database strategy; result compared with in-order stock revm"),
         samples=[dict(case=d["cases"][i][:700], par=d["par"][i][:500], model=d["P"][i][:500]) for i in range(min(2, len(d["cases"])))],
     )
     return ctx.finish("proof", cov, [
